@@ -6,6 +6,7 @@
 -/
 import AeicProofs.Lemmas.C12EI
 import AeicProofs.Lemmas.KernelBridge
+import AeicProofs.Lemmas.KernelBridge6
 
 namespace C12
 open Aeic Aeic.EI Aeic.Gen
@@ -644,5 +645,34 @@ theorem src_meem_point :
   KernelBridge.meem_point
 
 example : Kern.isa_altitude (Kern.isa_pressure (9000 : ℝ)) = 9000 := src_pressure_altitude_inverse _
+
+/-! ## Source tie for the whole HC / CO fit: `EI_HCCO` regenerated for one evaluation point (`Aeic.Kern.hcco_ei`, and in two
+    stages `hcco_param_*` / `hcco_point`); `KernelBridge6.hcEnv ei cal` is the attribute environment of the two
+    `ThrustModeValues` arguments -/
+
+/-- `EI_HCCO` of the source text — slanted and horizontal segments in log space, the `np.isclose` tests, the SAGE v1.5 clamping
+    rules as the `if / elif / elif` chain, the masked evaluation, the ACRP low-thrust factor, the ambient factor — is the model's
+    `hccoEI`, for every calibration data set, flow, temperature and pressure -/
+theorem src_hcco_is_model (ff T P : ℝ) (ei cal : Q4 ℝ) :
+    Kern.hcco_ei (KernelBridge6.hcEnv ei cal) ff T P = hccoEI ff ei cal T P := KernelBridge6.hcco_ei ff T P ei cal
+
+/-- the HC / CO index the source computes is non-negative for ALL calibration data and flows -/
+theorem src_hcco_nonneg (ff T P : ℝ) (ei cal : Q4 ℝ) (hT : 0 ≤ T) (hP : 0 ≤ P) :
+    0 ≤ Kern.hcco_ei (KernelBridge6.hcEnv ei cal) ff T P := by
+  rw [src_hcco_is_model]; exact hcco_nonneg ff T P ei cal hT hP
+
+/-- … scales linearly with the certification indices it is calibrated on, on every branch of the clamping rules -/
+theorem src_hcco_scales_linearly (ff T P c : ℝ) (ei cal : Q4 ℝ) (hc : 0 < c) (hei : posQ ei) :
+    Kern.hcco_ei (KernelBridge6.hcEnv (scaleQ c ei) cal) ff T P = c * Kern.hcco_ei (KernelBridge6.hcEnv ei cal) ff T P := by
+  rw [src_hcco_is_model, src_hcco_is_model]; exact hcco_scales_linearly ff T P c ei cal hc hei
+
+/-- … and the five fit parameters of the source after the clamping rules are the model's (so `hcco_clamped`, proved about
+    `hccoParams`, bounds what the source evaluates) -/
+theorem src_hcco_params_are_model (ei cal : Q4 ℝ) :
+    Kern.hcco_param_slope (KernelBridge6.hcEnv ei cal) = (hccoParams ei cal).slope ∧
+    Kern.hcco_param_base_log_fuel (KernelBridge6.hcEnv ei cal) = (hccoParams ei cal).baseLogFuel ∧
+    Kern.hcco_param_base_log_EI (KernelBridge6.hcEnv ei cal) = (hccoParams ei cal).baseLogEI ∧
+    Kern.hcco_param_x_horzline (KernelBridge6.hcEnv ei cal) = (hccoParams ei cal).horz ∧
+    Kern.hcco_param_x_intercept (KernelBridge6.hcEnv ei cal) = (hccoParams ei cal).xInt := KernelBridge6.hcco_params ei cal
 
 end C12
